@@ -687,6 +687,7 @@ def _book(rep, sc, events, results, notes, pos, clause, d):
 
 def run(rep):
     quick = rep.tier == "quick"
+    rep.extra_module = "vh.ssltransport"      # replay files of this module name it, whichever check wrote them
     world = pn.World.get()
     world.server_ctx("good", HOST)
     rep.rule = (rep.rule + " | " if rep.rule else "") + \
